@@ -78,6 +78,24 @@ def find_grad_validators(index) -> dict:
     return found
 
 
+def find_leaf_discovery(index):
+    """The function that maps tensors to the leaves of their autograd graphs, found by what it does: it reads `.grad_fn` of its
+    arguments and returns the `.variable` of graph nodes (directly or through helpers of its module)."""
+    import ast
+
+    def attrs(fi):
+        return {n.attr for n in ast.walk(fi.node) if isinstance(n, ast.Attribute)}
+
+    cands = []
+    for fi in index.all_functions("torchjd.autojac"):
+        if fi.parent is not None or fi.cls is not None:
+            continue
+        a = attrs(fi)
+        if "grad_fn" in a and "variable" in a and len(fi.node.args.args) >= 1:
+            cands.append(fi)
+    return cands[0].qualname if len(cands) == 1 else None
+
+
 def flag(name):
     return TV(kind="pybool", dtype="Bool", origin=frozenset([name]), note="flag")
 
@@ -90,12 +108,16 @@ class PipeAnalysis:
         self.interp.hooks["call"] = self.hook
         self.agg_cls = index.get_class("torchjd.aggregation.bases.Aggregator")
         self.validators = find_grad_validators(index)  # qualname -> "full" | "weak"
+        self.leaf_discovery = find_leaf_discovery(index)
+        if self.leaf_discovery is None:
+            raise AnalysisError("anchor vanished: the leaf-discovery function (reads .grad_fn of its arguments, returns the .variable of graph nodes)")
 
     # ---- hooks: summarised callees
     def hook(self, info, bound, node):
         I = self.interp
-        if info.name == "_get_leaf_tensors" and info.cls is None:
-            t, ex = bound.get("tensors"), bound.get("excluded")
+        if info.qualname == self.leaf_discovery:
+            ps_ = [a.arg for a in info.node.args.args]
+            t, ex = bound.get(ps_[0]), (bound.get(ps_[1]) if len(ps_) > 1 else None)
             self.ops.pev("leaf_discovery", node, tensors=sorted(self.ops.atoms_of(t)) or repr(t)[:60], excluded=sorted(self.ops.atoms_of(ex)) if ex is not None else None,
                          excluded_empty=self._empty(ex), in_loop=bool(self.ops.loop_orders), loop_order=repr(self.ops.current_loop_order(None)))
             if I.join_depth == 0:
